@@ -1,9 +1,9 @@
-SPECIFICATION Spec
+SPECIFICATION RepSpec
 CONSTANTS
   Params = {"p1", "p2"}
   Vals = {"a", "b"}
-  Errs = {"e1", "e2"}
-  Invs = {}
+  Errs = {"e1"}
+  Invs = {"i1"}
   Conns = {"c1", "c2"}
   OmitChoices = {0, 2}
   InitStamps = {0, 1}
